@@ -259,6 +259,9 @@ func TestC10(t *testing.T) {
 	defer r.Flush()
 	r.Rule("PRNG cases: limit in {1,10,100,4096,65536,200000} x size in {limit-1, limit, limit+1, limit+2, 2x, 4x, 64x, limit+600000, ...} x polling bodies with declared Content-Length or chunked transfer (real net/http parsing), single and multi-packet, revision 3 and 4 x WebSocket frames x WebTransport frames, on fresh sessions and on sessions upgraded from polling; oracle: no message event above the limit, oversized polling body answered 413, bytes consumed from the carrying connection bounded, oversized frame closes exactly that session, canary session keeps working; distinct = (transport, limit, size class, chunked, packets)")
 	r.Assume(fmt.Sprintf("the constant of the statement: %d bytes of read-buffer slack plus the %d bytes net/http itself may drain from an unread request body after the handler returned", readSlack, httpPostHandlerDrain))
+	if r.Lane == 1%r.Lanes {
+		quicLimit(r)
+	}
 	n := r.N(2000, 150000)
 	for i := 0; i < n; i++ {
 		if !r.Only(i) {
